@@ -170,6 +170,12 @@ impl futures_core::Stream for ScriptStream {
     }
 }
 
+/// A scripted stream positioned anywhere inside its range (pre-states of the multipart step
+/// harnesses), already coerced to the `dyn` type http-serve stores.
+pub fn script_stream_at(pos: u64, end: u64, call: usize) -> Pin<Box<dyn futures_core::Stream<Item = Result<Chunk, HErr>> + Send>> {
+    Box::pin(ScriptStream { pos, end, call, i: 0, finished: false })
+}
+
 // ---------------------------------------------------------------------------------------
 // The entity.
 
